@@ -290,9 +290,11 @@ macro_rules! rotr_128 {
         #[inline(always)]
         fn $name(self) -> Self {
             Self::new(unsafe {
+                // $i < 64: shift both halves, and fill in from the opposite half
+                let swapped = _mm_shuffle_epi32(self.x, 0b0100_1110);
                 _mm_or_si128(
-                    _mm_srli_si128(self.x, $i as i32),
-                    _mm_slli_si128(self.x, 128 - $i as i32),
+                    _mm_srli_epi64(self.x, $i as i32),
+                    _mm_slli_epi64(swapped, 64 - $i as i32),
                 )
             })
         }
